@@ -609,15 +609,54 @@ def check_wigner_angle_table(ctx: Check, tree: Tree) -> None:
     if not isinstance(val, ast.Dict) or len(val.keys) != 3:
         raise AnalysisError(f"{fn.qual}: does not return a dict of three angles")
 
+    helpers = {
+        n.name: n for n in fn.node.body
+        if isinstance(n, ast.FunctionDef) and isinstance(n.body[-1], ast.Return) and n.body[-1].value is not None
+        and all(isinstance(b, ast.Expr) and isinstance(b.value, ast.Constant) for b in n.body[:-1])
+    }
+
+    def const_index(e):
+        """a name bound once to an int literal (also through `x, y, z = 1, 2, 3`) -> the literal"""
+        if isinstance(e, ast.Name):
+            defs = list(rd.reaching(e))
+            if len(defs) == 1 and defs[0].value is not None:
+                v = defs[0].value
+                if defs[0].index is not None and isinstance(v, (ast.Tuple, ast.List)) and defs[0].index < len(v.elts):
+                    v = v.elts[defs[0].index]
+                if isinstance(v, ast.Constant) and isinstance(v.value, int):
+                    return v
+        return e
+
     def element(node):
         """(sign, row, col) of +-ArraySlice(R, (slice(None), row, col)) with R the Wigner rotation matrix"""
         sign = 1
         node = inl.expr(node)
         if isinstance(node, ast.UnaryOp) and isinstance(node.op, ast.USub):
             sign, node = -1, inl.expr(node.operand)
+        if isinstance(node, ast.Call) and isinstance(node.func, ast.Name) and node.func.id in helpers and not node.keywords:
+            # a local one-expression helper `def element(row, column): return ArraySlice(R, (slice(None), row, column))`
+            h = helpers[node.func.id]
+            hparams = [a.arg for a in h.args.args]
+            if len(hparams) == len(node.args):
+                import copy
+
+                sub = dict(zip(hparams, node.args))
+
+                class _S(ast.NodeTransformer):
+                    def visit_Name(self, n):  # noqa: N802
+                        if n.id in sub:
+                            return copy.deepcopy(sub[n.id])
+                        outer = [d for d in rd.defs if d.name == n.id and d.value is not None and d.index is None]
+                        if len(outer) == 1 and len([d for d in rd.defs if d.name == n.id]) == 1:
+                            return outer[0].value  # a closure variable bound exactly once in the enclosing function
+                        return n
+
+                node = _S().visit(copy.deepcopy(h.body[-1].value))
         if not (isinstance(node, ast.Call) and unparse(node.func).endswith("ArraySlice") and len(node.args) == 2):
             return None
         base, idx = inl.expr(node.args[0]), node.args[1]
+        if isinstance(idx, ast.Tuple):
+            idx = ast.Tuple(elts=[const_index(e) for e in idx.elts], ctx=ast.Load())
         if not (isinstance(base, ast.Call) and tree.resolve(fn.module, base.func, fn) == "ampform.kinematics.angles::compute_wigner_rotation_matrix"):
             return None
         if [unparse(a) for a in base.args] != fn.params[:3]:
